@@ -29,6 +29,8 @@ func runC01(w *World) *Result {
 	OpTableRule(w, bash, r, "R-C01-optable")
 	AllocRule(w, bash, r, "R-C01-alloc")
 	PopRule(w, "bash", r, "R-C01-alloc", "ForStart", "IfStart")
+	r.Rule("R-C01-numcmp", "Bash test commands order numbers with -lt/-le/-gt/-ge, never with < or > (text order)", 3)
+	BashTestOrderRule(w, bash, r, "R-C01-numcmp", func(l *Line) bool { return l.Em.Helper == "" })
 	ExitRule(w, bash, batch, r, "R-C01-exit")
 	r.Rule("R-C01-lower", "for / if lowering follows the protocol (init, ForStart, guarded increment, condition, ForCondition, body, ForEnd; all conditions before IfStart)", 2)
 	ProtoRule(w, r, "R-C01-lower", func(n string) bool { return n == "For" || n == "If" || n == "Block" })
